@@ -242,9 +242,13 @@ pub(crate) struct AuxiliaryFiles<'data> {
 }
 
 impl<'data> AuxiliaryFiles<'data> {
+    /// Reads the version script and export list, if any. The files read are appended to
+    /// `loaded_files` so that they are verified for changes and listed as dependencies like any
+    /// other input.
     pub(crate) fn new(
         args: &'data impl platform::Args,
         inputs_arena: &'data Arena<InputFile>,
+        loaded_files: &mut Vec<&'data InputFile>,
     ) -> Result<Self> {
         let resolve_script_path = |path: &Path| -> PathBuf {
             if path.exists() {
@@ -259,11 +263,15 @@ impl<'data> AuxiliaryFiles<'data> {
         Ok(Self {
             version_script_data: args
                 .version_script_path()
-                .map(|path| read_script_data(&resolve_script_path(path), inputs_arena))
+                .map(|path| {
+                    read_script_data(&resolve_script_path(path), inputs_arena, loaded_files)
+                })
                 .transpose()?,
             export_list_data: args
                 .export_list_path()
-                .map(|path| read_script_data(&resolve_script_path(path), inputs_arena))
+                .map(|path| {
+                    read_script_data(&resolve_script_path(path), inputs_arena, loaded_files)
+                })
                 .transpose()?,
         })
     }
@@ -729,15 +737,18 @@ impl<'data, P: Platform> TemporaryState<'data, P> {
 fn read_script_data<'data>(
     path: &Path,
     inputs_arena: &'data Arena<InputFile>,
+    loaded_files: &mut Vec<&'data InputFile>,
 ) -> Result<ScriptData<'data>> {
     let data = FileData::new(path, false).context("Failed to read script")?;
 
-    let file = inputs_arena.alloc(InputFile {
+    let file = &*inputs_arena.alloc(InputFile {
         filename: path.to_owned(),
         original_filename: path.to_owned(),
         modifiers: Default::default(),
         data: Some(data),
     });
+
+    loaded_files.push(file);
 
     Ok(ScriptData { raw: file.data() })
 }
